@@ -22,6 +22,7 @@ use utils::*;
 mod bfs;
 mod canon;
 mod check;
+mod dfs;
 mod fun;
 mod props;
 mod run;
